@@ -32,10 +32,20 @@ def universe_member(rng):
         for j in range(i):
             if rng.random() < 0.35:
                 tasks[i].setdefault("deps", []).append({"target": f"t{j}", "ref": f"t{j}", "gap": rng.choice([None, "1h"])})
-    if rng.random() < 0.3 and ntask >= 2:
-        c = {"id": "box", "children": [tasks.pop()]}
-        c["children"][0].pop("deps", None)
-        tasks.append(c)
+    if rng.random() < 0.4 and ntask >= 2:
+        kid = tasks.pop()
+        kid.pop("deps", None)
+        c = {"id": "box", "children": [kid]}
+        if rng.random() < 0.5:
+            c["children"].append({"id": "k2", "effort": [str(rng.choice([1, 2])), "h"], "alloc": list(kid["alloc"]), "prio": rng.choice([100, 500, 900])})
+        tasks.insert(rng.randrange(len(tasks) + 1), c)
+        # a task that waits for the whole container, possibly ranked above the container's leaves
+        if rng.random() < 0.7:
+            others = [t for t in tasks if t is not c and not any(d["target"].startswith("box") for d in t.get("deps", []))]
+            if others:
+                o = rng.choice(others)
+                if not any(d["target"] == o["id"] for k in c["children"] for d in k.get("deps", [])):
+                    o.setdefault("deps", []).append({"target": "box", "ref": "box", "gap": None})
     return {"start": MON, "dur": [1, "w"], "G": 3600, "resources": res, "tasks": tasks}
 
 
@@ -48,7 +58,11 @@ def run(chk):
     nu = 250 if tier == "quick" else 20000
     k = Knobs(envelope="asap", sub_slot=0.0, p_alt=0.0, p_tz=0.0, p_eff=0.15, eff=["0.5", "2", "0.25"], p_onstart=0.15,
               p_prec=0.2, p_limits=0.3, p_tasklimits=0.1, p_team=0.2, big_effort=0.05, aligned_only=True, dur_weeks=[3, 4])
-    asts = [gen.gen_project(chk.rng, k) for _ in range(n)] + [universe_member(chk.rng) for _ in range(nu)]
+    k2 = Knobs(envelope="asap", sub_slot=0.0, p_alt=0.0, p_tz=0.0, p_eff=0.0, max_res=1, max_tasks=6, p_container=0.7, p_dep=0.7,
+               p_gap=0.2, p_onstart=0.0, p_limits=0.1, p_tasklimits=0.0, p_team=0.0, big_effort=0.0, p_wh=0.1, p_leave=0.1,
+               aligned_only=True, dur_weeks=[3, 4], p_pin=0.05)
+    asts = ([gen.gen_project(chk.rng, k) for _ in range(n // 2)] + [gen.gen_project(chk.rng, k2) for _ in range(n - n // 2)]
+            + [universe_member(chk.rng) for _ in range(nu)])
     base = project_stream.run_projects(chk, asts, want_oracles=())
     dis = [{"stream": "project", "text": r["text"], "ast": r["ast"], "diffs": r["diffs"][:6]} for r in base if r["diffs"] and not r["skipped"]]
     found = []
